@@ -59,3 +59,25 @@ PROPS = {
         "parts": [{"engine": "qmodel", "test": "TestProp_C14_Store", "quick": 3000, "thorough": 400000}],
     },
 }
+
+
+def _merge_fragments():
+    """Engines may ship their own table fragment in harness/<engine>/table.py (ENGINES, PROPS)."""
+    import glob
+    import os
+    here = os.path.dirname(os.path.abspath(__file__))
+    for path in sorted(glob.glob(os.path.join(here, "harness", "*", "table.py"))):
+        ns = {"POSTGRES": POSTGRES, "SAMPLED": SAMPLED}
+        exec(compile(open(path).read(), path, "exec"), ns)
+        ENGINES.update(ns.get("ENGINES", {}))
+        for pid, spec in ns.get("PROPS", {}).items():
+            if pid in PROPS:
+                PROPS[pid]["parts"] += spec.get("parts", [])
+                PROPS[pid]["rule"] += " || " + spec.get("rule", "")
+                PROPS[pid]["assumptions"] = PROPS[pid].get("assumptions", []) + [a for a in spec.get("assumptions", []) if a not in PROPS[pid].get("assumptions", [])]
+                PROPS[pid]["guards"] = PROPS[pid].get("guards", []) + spec.get("guards", [])
+            else:
+                PROPS[pid] = spec
+
+
+_merge_fragments()
